@@ -1,7 +1,7 @@
 (* Witnesses for the known findings of C01 (known_findings/C01.json): the full statement is false on these inputs.
    Each is the negation of the conclusion of a C01 theorem on a concrete typed input; computed by vm_compute. *)
 Require Import PonyV.Base.PyBase PonyV.Model.C01Expr PonyV.Model.C01Sql PonyV.Model.C01Translate PonyV.Model.C01Safe
-               PonyV.Model.C01Eqb PonyV.Model.C01Query.
+               PonyV.Model.C01Eqb PonyV.Model.C01Query PonyV.Model.C01Join.
 
 Definition fa := mkattr 1 TInt true.
 Definition fb := mkattr 2 TInt true.
@@ -51,3 +51,38 @@ Theorem C01_refuted_not_over_truth_test_is_outside_pos_ok :
   pos_ok (row PNone (PInt 2)) (ENot (EAnd (EAttr fa) (ECmp CGt (EAttr fb) (EInt 1)))) = false.
 Proof. reflexivity. Qed.
 Print Assumptions C01_refuted_not_over_truth_test_is_outside_pos_ok.
+
+(* ------------------------------------------------------------------------------------------- attribute paths *)
+Definition jp (id : Z) (grp : pyv) : C01Join.row := row_of [(0, PInt id); (8, grp); (3, PInt 0); (5, PStr [97%Z]); (7, PBool true)]%nat.
+Definition jg : C01Join.row := row_of [(0, PInt 1); (1, PInt 0)]%nat.        (* G[1]: number = 0 *)
+Definition jdb1 : jdb := mkjdb [jp 1 (PInt 1); jp 2 PNone] [jg] [].
+Definition group_id := mkattr 8 TInt true.
+Definition group_number := mkattr 11 TInt false.
+
+(* select(p.id for p in P if p.group is None or p.group.number > 1): Python keeps the object without a group (the `or`
+   short-circuits, no attribute of None is touched); the comma join `FROM P p, G g WHERE ... AND p.group = g.id` drops it *)
+Theorem C01_refuted_optional_path_inner_join_drops_rows :
+  let filt := EOr (ECmp CIs (EAttr group_id) ENone) (ECmp CGt (EAttr group_number) (EInt 1)) in
+  let proj := EAttr (mkattr 0 TInt false) in
+  ty_of filt = Some TCond /\ depth_of [filt; proj] = 1%nat /\
+  py_join_rows false filt proj (fun _ => PNone) jdb1 = [PInt 2] /\
+  forall d, modelled d = true ->
+    exists conds q, tr_filter d filt = Some conds /\ tr_project d proj = Some q /\
+      sql_join_rows d JInner 1 false conds q (fun _ => PNone) jdb1 = [] /\
+      sql_join_rows d JLeft 1 false conds q (fun _ => PNone) jdb1 = [IntV 2].
+Proof. cbv zeta. repeat split; try reflexivity. intros d H; destruct d; try discriminate H; do 2 eexists; repeat split; reflexivity. Qed.
+Print Assumptions C01_refuted_optional_path_inner_join_drops_rows.
+
+(* left_join(p.id for p in P if not p.group.number): G.number is Required, so the AttrMonad is "not nullable" and negate gives
+   `g.number = 0` without the IS NULL disjunct; for an object without a group the LEFT JOIN supplies NULL, the row is dropped,
+   while Python (None propagation: not None) keeps it *)
+Theorem C01_refuted_left_join_required_attribute_through_none_reference :
+  let filt := ENot (EAttr group_number) in let proj := EAttr (mkattr 0 TInt false) in
+  ty_of filt = Some TCond /\
+  py_join_rows false filt proj (fun _ => PNone) jdb1 = [PInt 1; PInt 2] /\
+  env_ok (penv (fun _ => PNone) (flat jdb1 (jp 2 PNone))) filt = false /\
+  forall d, modelled d = true ->
+    exists conds q, tr_filter d filt = Some conds /\ tr_project d proj = Some q /\
+      sql_join_rows d JLeft 1 false conds q (fun _ => PNone) jdb1 = [IntV 1].
+Proof. cbv zeta. repeat split; try reflexivity. intros d H; destruct d; try discriminate H; do 2 eexists; repeat split; reflexivity. Qed.
+Print Assumptions C01_refuted_left_join_required_attribute_through_none_reference.
